@@ -34,6 +34,12 @@ structure IsSetOf (e : Val → Val → Bool) (xs ys : List Val) : Prop where
   sound : ∀ y ∈ ys, y ∈ xs
   distinct : ys.Pairwise (fun a b => e a b = false)
 
+/-- `e` is an equivalence on the elements of `U` (for derived Equal: C02; for `==`: NaN-freeness) -/
+structure EquivOn (e : Val → Val → Bool) (U : List Val) : Prop where
+  refl : ∀ a ∈ U, e a a = true
+  symm : ∀ a ∈ U, ∀ b ∈ U, e a b = true → e b a = true
+  trans : ∀ a ∈ U, ∀ b ∈ U, ∀ c ∈ U, e a b = true → e b c = true → e a c = true
+
 /-- non-decreasing under a three-way comparison `c` (`c b a ≥ 0` for every earlier `a`, later `b`) -/
 def SortedBy (c : Val → Val → Int) (xs : List Val) : Prop :=
   xs.Pairwise (fun a b => c b a ≥ 0)
